@@ -170,3 +170,15 @@ Proof.
   exists 500, 10, 253, (EstOk 253), 1000.
   eexists. split; [vm_compute; reflexivity|]. split; vm_compute; reflexivity.
 Qed.
+
+Lemma c18_topup : forall extra utxos l l' st,
+  add_wallet_inputs extra l utxos = (l', st) ->
+  (exists k, l' = l ++ map (fun u => mkB u 0 false) (firstn k utxos)) /\
+  set_budget extra l' = set_budget extra l /\
+  (st = TopSatisfied -> set_budget extra l' <= spendable l') /\
+  (st = TopNotEnoughInputs -> forall i, In i l' -> b_req i = true).
+Proof.
+  intros extra utxos l l' st H.
+  destruct (add_wallet_inputs_spec _ _ _ _ _ H) as (H1 & H2 & H3 & H4).
+  repeat split; auto. intros Hs. apply no_need_covers_budget. auto.
+Qed.
